@@ -220,11 +220,15 @@ def _pairs_task(task):
                     if (qa / qb) != quo.GetQuantity():
                         part.violation("C04:quantity-div:" + names, dict(detail, quantity=repr(qa / qb), scalar_quantity=repr(quo.GetQuantity())))
                     # Arrays, element by element (list and ndarray)
-                    for kind in ("list", "ndarray"):
+                    for kind in ("list", "ndarray", "ndarray*tuple", "list*ndarray"):
                         va = [sa.value, 2.0 * sa.value]
                         vb = [sb.value, -3.0 * sb.value]
                         if kind == "ndarray":
                             va, vb = np.array(va), np.array(vb)
+                        elif kind == "ndarray*tuple":  # (mixed kinds: the python container goes through the database as a whole)
+                            va, vb = np.array(va), tuple(vb)
+                        elif kind == "list*ndarray":
+                            vb = np.array(vb)
                         for opn, exp_dim, factor in (("*", _dim_op(da, db_, 1), None), ("/", _dim_op(da, db_, -1), None)):
                             ar = (Array(qa, va) * Array(qb, vb)) if opn == "*" else (Array(qa, va) / Array(qb, vb))
                             part.count("evaluations")
